@@ -672,6 +672,19 @@ def jobs_C09(rng, tier):
                     lag2 = max(lag, int((2 * (5 + k2 * 0.6931) + 19) / 0.0408) + 300) if nm in ("tflex", "rflex") else max(lag, 1200)
                     tiny = [F(rng.randint(-1024, 1024), 1024) * u for _ in range(lag2 + 40)]
                     js.append(Relation("converge", e, [p1 + tiny, p2 + tiny], dict(merge=merge, lag=lag2, scale=1.0 if nm in ("tflex", "rflex", "lagrsi", "eft") else float(u)), mode="f"))
+                if n in (3, 4, 8, 16) and nm != "eft":   # EFT: see known finding K10 (its moving average is not fed on a flat window)
+                    # a loud and a quiet head, then a long stretch of ONE repeated value (long enough for the smoother to reach an
+                    # exact floating-point fixed point), then movement again: from 40 values later on the two runs must agree.  (Wave-8 seed
+                    # C09h: TrendFlex returned early when its deviation was exactly 0 and skipped the decay of its running mean
+                    # square, so the loud head's scale survived the flat stretch.  Invisible in exact arithmetic, where the
+                    # deviation never becomes exactly 0.)
+                    flat = [F(rng.randint(-8, 8), 4)] * (40 * neff + 600)
+                    loud = [F(rng.randint(-1024, 1024), 8) for _ in range(merge)]
+                    quiet = [F(rng.randint(-1024, 1024), 1024) for _ in range(merge)]
+                    move = [F(rng.randint(-1024, 1024), 1024) for _ in range(340)]
+                    js.append(Relation("converge", e, [loud + flat + move, quiet + flat + move],
+                                       dict(merge=merge, lag=len(flat) + 40, scale=1.0, eps=1e-2), mode="f"))
+                    js.append(Corr(e, "f", xs_ops("f", loud + flat + move), "f64", scale=128.0, n=neff))
                 js.append(Corr(e, "f", xs_ops("f", xs[:200]), "f64", scale=B, n=neff))
     # chains built from recursive views
     for _ in range(scale_n(tier, 12, 100)):
